@@ -147,6 +147,30 @@ def _jac(ctx, p, rng):
         if not ok:
             ctx.violation('jac_vec:value', {'N': N, 'M': M, 'm': m, 'got': float(Jv[m]), 'want': float(ref)}); return
     ctx.ok('jac_vec', ('jv', N, M, p['point'], style))
+    # the value of the program may have any shape: a scalar (one polynomial, evaluated to a scalar), a matrix (outer product of
+    # the value vector with itself) - the Jacobian-vector product has the shape of the value
+    try:
+        Xs = UTPM.init_jac_vec(_typed(rng, x, p['point']), v.copy())
+        ys = PP.evaluate(algopy, polys[:1], Xs, style)            # scalar-valued
+        js = np.asarray(UTPM.extract_jac_vec(ys))
+        Yv = PP.evaluate(algopy, polys, Xs, -1 - style)
+        jm = np.asarray(UTPM.extract_jac_vec(algopy.outer(Yv, Yv)))
+    except Exception as e:
+        ctx.violation('jac_vec:scalar-or-matrix-valued:raises:' + type(e).__name__, {'N': N, 'M': M, 'error': repr(e)[:200]}); return
+    ref0 = sum(polys[0].diff(i)(xq) * vq[i] for i in range(N)); sc0 = sum(polys[0].diff(i).absval(xq) * abs(vq[i]) for i in range(N))
+    ok, e = _close(js.reshape(-1)[0], ref0, sc0) if js.size == 1 else (False, None)
+    if js.shape not in ((), (1,)) or not ok:
+        ctx.violation('jac_vec:scalar-valued', {'N': N, 'got_shape': js.shape, 'got': js.tolist(), 'want': float(ref0)}); return
+    vals = [polys[m](xq) for m in range(M)]; dvals = [sum(polys[m].diff(i)(xq) * vq[i] for i in range(N)) for m in range(M)]
+    avals = [polys[m].absval(xq) for m in range(M)]; advals = [sum(polys[m].diff(i).absval(xq) * abs(vq[i]) for i in range(N)) for m in range(M)]
+    if jm.shape != (M, M):
+        ctx.violation('jac_vec:matrix-valued:shape', {'N': N, 'M': M, 'got_shape': jm.shape, 'want': (M, M)}); return
+    for a in range(M):
+        for b in range(M):
+            ok, e = _close(jm[a, b], dvals[a] * vals[b] + vals[a] * dvals[b], advals[a] * avals[b] + avals[a] * advals[b])
+            if not ok:
+                ctx.violation('jac_vec:matrix-valued:value', {'N': N, 'M': M, 'entry': [a, b], 'got': float(jm[a, b])}); return
+    ctx.ok('jac_vec', ('jv-shapes', N, M, style))
 
 
 def _jacmat(ctx, p, rng):
